@@ -1,9 +1,14 @@
 #!/bin/bash
-# merge_agent.sh Cxx : copy a builder agent's property-owned files from /tmp/w/Cxx/verif into /verif
-set -e
+# merge_agent.sh Cxx : copy a builder agent's NEW files (and its own property files) from /tmp/w/Cxx/verif into /verif
 P=$1; SRC=/tmp/w/$P/verif; DST=/verif
 cd $SRC
-# files that differ from /verif or are new (excluding build output, evidence, replays, generated files)
+p=$(echo $P | tr A-Z a-z)
 rsync -rcn --out-format='%n' --exclude '.lake' --exclude 'replays' --exclude 'evidence' --exclude '__pycache__' \
   --exclude 'lean/S2T/Gen' --exclude 'lean/Driver.lean' --exclude 'lean/S2T.lean' --exclude 'MANIFEST.json' --exclude '.git' \
-  $SRC/ $DST/ | grep -v '/$' || true
+  $SRC/ $DST/ | grep -v '/$' | while read f; do
+  if [ ! -e "$DST/$f" ]; then mkdir -p "$(dirname "$DST/$f")"; cp "$SRC/$f" "$DST/$f"; echo "NEW   $f";
+  elif echo "$f" | grep -qiE "(/|^)($P|$p)[._]|manifest.d/$P.json"; then cp "$SRC/$f" "$DST/$f"; echo "OWN   $f";
+  else echo "SKIP  $f (differs, shared)"; fi
+done
+echo "--- known_findings lines of $P:"; grep "\"$P\"" $SRC/known_findings.jsonl 2>/dev/null
+echo "--- patches:"; ls /tmp/w/$P/*.patch 2>/dev/null
